@@ -6,8 +6,9 @@ from cryptography.hazmat.primitives.asymmetric import ec, rsa, ed25519
 
 DIR = os.path.join(os.path.dirname(os.path.dirname(os.path.abspath(__file__))), "fixtures", "keys")
 COUNTS = {"p256": 6, "p384": 3, "p521": 3, "ed25519": 4, "rsa": 6, "p256lz": 2, "p521lz": 1, "secp256k1": 1, "rsa3": 1,
-          "rsa2047": 1, "rsa1024": 1, "rsa3072": 1}
-CURVES = {"p256": ec.SECP256R1, "p384": ec.SECP384R1, "p521": ec.SECP521R1, "secp256k1": ec.SECP256K1}
+          "rsa2047": 1, "rsa1024": 1, "rsa3072": 1, "brainpoolp256r1": 1}
+CURVES = {"p256": ec.SECP256R1, "p384": ec.SECP384R1, "p521": ec.SECP521R1, "secp256k1": ec.SECP256K1,
+          "brainpoolp256r1": ec.BrainpoolP256R1}
 
 
 def _gen(kind):
